@@ -1,19 +1,66 @@
 (** C13 — Church arithmetic and comparisons compute the arithmetic of the naturals.
 
-    What is proved here, on the GENERATED constants of src/data/num/church.rs:
-    (1) soundness for every order and all arguments: whatever a normalising order returns is the
-        normal form, so if the expected numeral is reachable it is what NOR/HNO/APP/HAP return;
-    (2) NOR finds every reachable numeral (C07);
-    (3) BOUNDED (the bound is in each statement): on the grid m, n <= 3 (unary: <= 5, fac <= 3) the
-        model of reduce returns the encoding of the expected result under NOR, HNO, HAP and (for the
-        operations defined without a fixed-point combinator) APP.
-    The unbounded convertibility op ⌜m⌝ ⌜n⌝ ->* ⌜f m n⌝ is proved in Proofs/ChurchArith.v for the
-    operations listed in C13_forall; for the others it is the stated gap, covered by (3) and by the
-    correspondence/oracle runs on a larger grid. *)
-From LC Require Import Spec.Encodings Spec.Confluence Model.Reduction Gen.Terms
-  Proofs.Sound Proofs.ReduceProps Proofs.Normalise Proofs.Grids.
+    On the GENERATED constants of src/data/num/church.rs:
+    (1) for ALL m, n: each of the 23 operations applied to the encodings of its arguments is
+        beta-convertible (reduces) to the encoding of the mathematically expected result;
+    (2) hence (C07) reduce with NOR and limit 0 returns exactly that encoding, for all m, n, and
+        (C06) whatever HNO, APP or HAP return, if they return, is that encoding;
+    (3) termination of HNO / HAP / APP is proved only on a grid whose bound is in the statement
+        (m, n <= 3), by in-kernel evaluation of the model of reduce. *)
+From LC Require Import Spec.Encodings Spec.Confluence Spec.NorEval Model.Reduction Gen.Terms
+  Proofs.Sound Proofs.ReduceProps Proofs.Normalise Proofs.Convert Proofs.Grids Proofs.ChurchArith.
 
-Theorem C13_sound : forall o fuel t v u c, (o = NOR \/ o = HNO \/ o = APP \/ o = HAP) ->
+Theorem C13_unary : forall n,
+  red (App lc_num_church_succ (church n)) (church (S n)) /\
+  red (App lc_num_church_pred (church n)) (church (pred n)) /\
+  red (App lc_num_church_fac (church n)) (church (fact n)) /\
+  red (App lc_num_church_is_zero (church n)) (bool_t (n =? 0)) /\
+  red (App lc_num_church_is_even (church n)) (bool_t (Nat.even n)) /\
+  red (App lc_num_church_is_odd (church n)) (bool_t (Nat.odd n)).
+Proof.
+  intros n. repeat split.
+  - apply church_succ. - apply church_pred. - apply church_fac.
+  - apply church_is_zero. - apply church_is_even. - apply church_is_odd.
+Qed.
+
+Theorem C13_arithmetic : forall m n,
+  red (App (App lc_num_church_add (church m)) (church n)) (church (m + n)) /\
+  red (App (App lc_num_church_sub (church m)) (church n)) (church (m - n)) /\
+  red (App (App lc_num_church_mul (church m)) (church n)) (church (m * n)) /\
+  red (App (App lc_num_church_pow (church m)) (church n)) (church (m ^ n)) /\
+  red (App (App lc_num_church_min (church m)) (church n)) (church (Nat.min m n)) /\
+  red (App (App lc_num_church_max (church m)) (church n)) (church (Nat.max m n)) /\
+  red (App (App lc_num_church_shl (church m)) (church n)) (church (m * 2 ^ n)) /\
+  red (App (App lc_num_church_shr (church m)) (church n)) (church (m / 2 ^ n)).
+Proof.
+  intros m n. repeat split.
+  - apply church_add. - apply church_sub. - apply church_mul. - apply church_pow.
+  - apply church_min. - apply church_max. - apply church_shl. - apply church_shr.
+Qed.
+
+Theorem C13_division : forall m n, 1 <= n ->
+  red (App (App lc_num_church_div (church m)) (church n)) (pair_t (church (m / n)) (church (m mod n))) /\
+  red (App (App lc_num_church_quot (church m)) (church n)) (church (m / n)) /\
+  red (App (App lc_num_church_rem (church m)) (church n)) (church (m mod n)).
+Proof. intros m n H. repeat split. - apply church_div; auto. - apply church_quot; auto. - apply church_rem; auto. Qed.
+
+Theorem C13_comparisons : forall m n,
+  red (App (App lc_num_church_lt (church m)) (church n)) (bool_t (m <? n)) /\
+  red (App (App lc_num_church_leq (church m)) (church n)) (bool_t (m <=? n)) /\
+  red (App (App lc_num_church_eq (church m)) (church n)) (bool_t (m =? n)) /\
+  red (App (App lc_num_church_neq (church m)) (church n)) (bool_t (negb (m =? n))) /\
+  red (App (App lc_num_church_geq (church m)) (church n)) (bool_t (n <=? m)) /\
+  red (App (App lc_num_church_gt (church m)) (church n)) (bool_t (n <? m)).
+Proof.
+  intros m n. repeat split.
+  - apply church_lt. - apply church_leq. - apply church_eq. - apply church_neq. - apply church_geq. - apply church_gt.
+Qed.
+
+(** from convertibility to what the crate's reducer returns *)
+Theorem C13_nor_returns : forall t v, red t v -> nfb v = true -> exists fuel c, reduce_m fuel NOR 0 t = Some (v, c).
+Proof. exact nor_normalises. Qed.
+
+Theorem C13_any_order_sound : forall o fuel t v u c, (o = NOR \/ o = HNO \/ o = APP \/ o = HAP) ->
   red t v -> nfb v = true -> reduce_m fuel o 0 t = Some (u, c) -> u = v.
 Proof.
   intros o fuel t v u c Ho R N H.
@@ -23,13 +70,15 @@ Proof.
   eapply nf_unique; eauto; apply nfb_nf; auto.
 Qed.
 
-Theorem C13_nor_finds : forall t v, red t v -> nfb v = true -> exists fuel c, reduce_m fuel NOR 0 t = Some (v, c).
-Proof. exact nor_normalises. Qed.
+(** e.g. NOR on add, for all m, n *)
+Theorem C13_nor_add : forall m n, exists fuel c,
+  reduce_m fuel NOR 0 (App (App lc_num_church_add (church m)) (church n)) = Some (church (m + n), c).
+Proof. intros. apply nor_normalises; [apply church_add|apply church_nf]. Qed.
 
+(** termination under the other orders: bounded grid (m, n <= 3; unary <= 5; fac <= 3) *)
 Theorem C13_bounded_grid : forallb (fun b => b) church_grid = true /\ forallb (fun b => b) church_div_grid = true.
 Proof. split; [exact church_grid_ok|exact church_div_grid_ok]. Qed.
 
-(** what one entry of the grid means, e.g. addition *)
 Theorem C13_bounded_add : forall o m n, In o [NOR; HNO; HAP; APP] -> m <= 3 -> n <= 3 ->
   exists c, reduce_m FUEL o 0 (App (App lc_num_church_add (church m)) (church n)) = Some (church (m + n), c).
 Proof.
@@ -37,7 +86,12 @@ Proof.
   vm_compute. reflexivity.
 Qed.
 
-Print Assumptions C13_sound.
-Print Assumptions C13_nor_finds.
+Print Assumptions C13_unary.
+Print Assumptions C13_arithmetic.
+Print Assumptions C13_division.
+Print Assumptions C13_comparisons.
+Print Assumptions C13_nor_returns.
+Print Assumptions C13_any_order_sound.
+Print Assumptions C13_nor_add.
 Print Assumptions C13_bounded_grid.
 Print Assumptions C13_bounded_add.
